@@ -16,8 +16,10 @@ V = os.path.dirname(os.path.dirname(os.path.abspath(__file__)))
 # a change that breaks the statement of another property than the one it was written for
 OTHER = {"C06-D": "C11",     # template field lost over dump / reload: C11's statement (a reloaded cache decodes as before)
          "C03-E": "C11",     # the same for IPFIX
-         "C07-F": "C12",
-         "C10-H": "C04"}     # template withdrawal that cuts a probe chain: which template answers (C04); no race, no crash     # the sFlow worker queues its encode buffer without a copy: C12 / C13 (what is published)
+         "C07-F": "C12",     # the sFlow worker queues its encode buffer without a copy: C12 / C13 (what is published)
+         "C10-H": "C04",     # template withdrawal that cuts a probe chain: which template answers (C04); no race, no crash
+         "C07-J": "C12",     # the sFlow worker gives short slices back to the receive-buffer pool: later datagrams are cut (C12 / C13)
+         "C13-J": "C16"}     # the mirror dispatcher gives short slices back to the pool (the mirror's path: C16)
 # judged outside the properties (see DESIGN.md section 9): not expected to be detected
 OUTSIDE = {"C17-E"}
 
